@@ -24,6 +24,7 @@ type ntx struct {
 	tooBig bool // amount exceeds the sender's balance: passes every check, fails in the handler after the fee was taken
 	done   bool
 	label  string
+	vest   bool // not a nonce transaction: a send WITH a vesting schedule from a third party to the account under test
 }
 
 // TestC06Nonce: RLP.V2 (nonce based) Ethereum-wrapped sends of one account: nonces equal to / below / above the account's
@@ -55,6 +56,23 @@ func TestC06Nonce(t *testing.T) {
 			h := c.Height()
 			var batch []*ntx
 			for i, n := 0, rapid.IntRange(1, 5).Draw(rt, "txs"); i < n; i++ {
+				if floor > 0 && rapid.IntRange(0, 3).Draw(rt, "vesting-send") == 0 {
+					// anyone may send the account tokens with a vesting schedule (the first one starts a tranche, the account record is
+					// rewritten): the nonce floor must survive. Same terms every time, so later ones are compatible.
+					salt++
+					third := cs.Signer{Kind: cs.KindEd, Key: 15}
+					bz, _, err := c.Sign(third, &fsm.MessageSend{FromAddress: third.Address(), ToAddress: me, Amount: uint64(3 + salt), VestingStartHeight: 1, VestingCliffHeight: 1, VestingEndHeight: 100000},
+						cs.TxOpts{Fee: cs.DefaultFee + uint64(salt), Created: h})
+					if err != nil {
+						rt.Fatalf("sign: %v", err)
+					}
+					w := &ntx{bz: bz, vest: true, label: "vesting-send-to-the-account(by a third party)"}
+					all = append(all, w)
+					batch = append(batch, w)
+					cse.Class("tx=vesting-send-to-account-with-nonce-floor")
+					nontriv = true
+					continue
+				}
 				if len(all) > 0 && rapid.IntRange(0, 4).Draw(rt, "resubmit") == 0 {
 					w := all[rapid.IntRange(0, len(all)-1).Draw(rt, "which")]
 					dup := false
@@ -73,7 +91,7 @@ func TestC06Nonce(t *testing.T) {
 				// the floor the generator aims at is the model's floor at the START of the block plus what this block did so far
 				cur := floor
 				for _, x := range batch {
-					if x.v2 && !x.done && !x.tooBig && x.nonce >= cur && x.nonce != math.MaxUint64 {
+					if x.v2 && !x.vest && !x.done && !x.tooBig && x.nonce >= cur && x.nonce != math.MaxUint64 {
 						cur = x.nonce + 1
 					}
 				}
@@ -136,7 +154,9 @@ func TestC06Nonce(t *testing.T) {
 				txs = append(txs, w.bz)
 				names = append(names, w.label+map[bool]string{true: "(again)", false: ""}[w.done])
 				ok := !w.done && !w.tooBig
-				if w.v2 {
+				if w.vest {
+					// an ordinary transaction
+				} else if w.v2 {
 					ok = ok && w.nonce >= f && w.nonce != math.MaxUint64
 				} else {
 					ok = ok && inWindow(h, h)
@@ -144,7 +164,7 @@ func TestC06Nonce(t *testing.T) {
 				if ok {
 					want[crypto.HashString(w.bz)] = true
 					expect = append(expect, w.bz)
-					if w.v2 {
+					if w.v2 && !w.vest {
 						f = w.nonce + 1
 					}
 				}
@@ -186,11 +206,14 @@ func TestC06Nonce(t *testing.T) {
 				rt.Fatalf("VIOLATION C06: rejected transactions left traces (block with only the accepted ones differs): %s", d)
 			}
 			if got := cs.AccountIn(a, me).Nonce; got != floor {
-				rt.Fatalf("VIOLATION C06: account nonce floor is %d, model says %d", got, floor)
+				rt.Fatalf("VIOLATION C06: account nonce floor is %d, model says %d (the floor of an account never decreases; only its own successful RLP.V2 transactions raise it)", got, floor)
 			}
 		}
 		post, _ := c.Scan()
 		for _, w := range all {
+			if w.vest {
+				continue
+			}
 			want := uint64(0)
 			if w.done {
 				want = w.amount
